@@ -65,6 +65,12 @@ def progress_set(tier):
                 if sum(ds) <= 2:
                     p = fp.build(mac, ds, gated="one", handler=hk, hexpr_ev=True)
                     out.append(aprog("%s/%s/handlerexpr" % (mac, fp.pname(ds)), p, ds, "one", handler=hk))
+    # a long chain (20 instant operators) behind the pending point of branch 0, next to a pending sibling: a released branch runs its
+    # step to the END while the sibling is still pending
+    for mac in ("join_async", "try_join_async", "join_async_spawn", "try_join_async_spawn"):
+        for ds in ((1, 1), (1, 2)):
+            p = fp.build(mac, ds, gated="long0")
+            out.append(aprog("%s/%s/long0" % (mac, fp.pname(ds)), p, ds, "long0"))
     # wide steps (17 and 33 branches, the first and the last one pending, all others ready): every branch is polled up to its pending
     # point in the first round, whatever its index, and the future completes under both release orders
     for mac in ("join_async", "try_join_async"):
